@@ -138,6 +138,8 @@ class Target(Monitor):
                     col.report(f"dilute/{num}-per-{den}/{'+'.join(classes)}/misses-target",
                                {'target': target, 'got': got, 'current': cur, 'conc': op['conc'],
                                 'solvent_present': base.get(solvent.name, 0) > 0}, case)
+            if verdict == 'accept' and reachable:
+                self.as_recipe_step(world, op, out, case, f"{num}-per-{den}")
         else:
             col.label('dilute:refused')
             if not isinstance(out.exc, ValueError):
@@ -150,6 +152,27 @@ class Target(Monitor):
             col.nontrivial_key(key)
             col.sample(lambda: {'op': op, 'contents': before['contents'], 'verdict': verdict, 'current': cur,
                                 'target': target})
+
+    def as_recipe_step(self, world, op, out, case, units):
+        """the same dilution as the only step of a recipe reaches the same container (Recipe.dilute validates the target
+        on its own before bake does the work)"""
+        from engines import programs
+        pp, col = world.pp, self.col
+        cont = world.pool[op['obj']].obj
+        exc = res = None
+        try:
+            r = pp.Recipe()
+            r.uses(cont)
+            r.dilute(cont, world.real[op['solute']], op['conc'], world.real[op['solvent']], op.get('name'))
+            res = r.bake()
+        except Exception as e:  # noqa
+            exc = e
+        col.label('dilute:also-as-recipe-step')
+        if exc is not None:
+            col.report(f"dilute/{units}/recipe-step-refused-although-direct-call-returns:{type(exc).__name__}",
+                       {'exc': repr(exc)[:160], 'conc': op['conc']}, case)
+        elif len(res) != 1 or not programs.same_container(world, bench.view_container(list(res.values())[0]), out.new_entries[0].view):
+            col.report(f"dilute/{units}/recipe-step-differs-from-direct-call", {'conc': op['conc']}, case)
 
     # ------------------------------------------------------------------------------------------------ fill_to
     def fill(self, world, op, out):
